@@ -719,7 +719,7 @@ struct numeric_limits<float> {
 
     static constexpr int digits       = FLT_MANT_DIG;
     static constexpr int digits10     = FLT_DIG;
-    static constexpr int max_digits10 = DECIMAL_DIG;
+    static constexpr int max_digits10 = 2 + FLT_MANT_DIG * 301L / 1000;
 
     static constexpr bool is_signed  = true;
     static constexpr bool is_integer = false;
@@ -742,7 +742,7 @@ struct numeric_limits<float> {
     static constexpr auto infinity() noexcept -> float { return TETL_BUILTIN_HUGE_VALF; }
     static constexpr auto quiet_NaN() noexcept -> float { return TETL_BUILTIN_NANF(""); }      // NOLINT
     static constexpr auto signaling_NaN() noexcept -> float { return TETL_BUILTIN_NANSF(""); } // NOLINT
-    static constexpr auto denorm_min() noexcept -> float { return 0.0F; }
+    static constexpr auto denorm_min() noexcept -> float { return __FLT_DENORM_MIN__; }
 
     static constexpr bool is_iec559  = true;
     static constexpr bool is_bounded = true;
@@ -750,7 +750,7 @@ struct numeric_limits<float> {
 
     static constexpr bool traps                    = false;
     static constexpr bool tinyness_before          = false;
-    static constexpr float_round_style round_style = round_toward_zero;
+    static constexpr float_round_style round_style = round_to_nearest;
 };
 
 template <>
@@ -763,7 +763,7 @@ struct numeric_limits<double> {
 
     static constexpr int digits       = DBL_MANT_DIG;
     static constexpr int digits10     = DBL_DIG;
-    static constexpr int max_digits10 = DECIMAL_DIG;
+    static constexpr int max_digits10 = 2 + DBL_MANT_DIG * 301L / 1000;
 
     static constexpr bool is_signed  = true;
     static constexpr bool is_integer = false;
@@ -786,7 +786,7 @@ struct numeric_limits<double> {
     static constexpr auto infinity() noexcept -> double { return TETL_BUILTIN_HUGE_VAL; }
     static constexpr auto quiet_NaN() noexcept -> double { return TETL_BUILTIN_NAN(""); }      // NOLINT
     static constexpr auto signaling_NaN() noexcept -> double { return TETL_BUILTIN_NANS(""); } // NOLINT
-    static constexpr auto denorm_min() noexcept -> double { return 0.0; }
+    static constexpr auto denorm_min() noexcept -> double { return __DBL_DENORM_MIN__; }
 
     static constexpr bool is_iec559  = true;
     static constexpr bool is_bounded = true;
@@ -794,7 +794,7 @@ struct numeric_limits<double> {
 
     static constexpr bool traps                    = false;
     static constexpr bool tinyness_before          = false;
-    static constexpr float_round_style round_style = round_toward_zero;
+    static constexpr float_round_style round_style = round_to_nearest;
 };
 
 template <>
@@ -830,7 +830,7 @@ struct numeric_limits<long double> {
     static constexpr auto infinity() noexcept -> long double { return TETL_BUILTIN_HUGE_VALL; }
     static constexpr auto quiet_NaN() noexcept -> long double { return TETL_BUILTIN_NANL(""); }      // NOLINT
     static constexpr auto signaling_NaN() noexcept -> long double { return TETL_BUILTIN_NANSL(""); } // NOLINT
-    static constexpr auto denorm_min() noexcept -> long double { return 0.0L; }
+    static constexpr auto denorm_min() noexcept -> long double { return __LDBL_DENORM_MIN__; }
 
     static constexpr bool is_iec559  = true;
     static constexpr bool is_bounded = true;
@@ -838,7 +838,7 @@ struct numeric_limits<long double> {
 
     static constexpr bool traps                    = false;
     static constexpr bool tinyness_before          = false;
-    static constexpr float_round_style round_style = round_toward_zero;
+    static constexpr float_round_style round_style = round_to_nearest;
 };
 
 template <typename T>
